@@ -840,6 +840,11 @@ impl Inner {
                     return Ok(());
                 }
 
+                if stream.is_pending_open {
+                    proto_err!(conn: "recv_push_promise: received frame on idle stream {:?}", id);
+                    return Err(Error::library_go_away(Reason::PROTOCOL_ERROR));
+                }
+
                 // The stream must be receive open
                 if !stream.state.ensure_recv_open()? {
                     proto_err!(conn: "recv_push_promise: initiating stream is not opened");
